@@ -8,6 +8,7 @@ mod findings;
 mod gen;
 mod props;
 mod pt;
+mod px;
 mod refmodel;
 mod selftest;
 
